@@ -308,6 +308,20 @@ def class_multisets(k):
     return list(itertools.combinations_with_replacement(T_CLASSES, k))
 
 
+# sample IDs by block of the partition: in ascending order of first use, and in an order that is neither ascending by
+# code point nor ascending ignoring case (file order must decide the column order, not the spelling of the names)
+ID_NAMINGS = {"ascending": ["S1", "S2", "S3", "S4", "S5"], "unordered": ["t9", "r5", "a1", "N7", "B3"]}
+
+
+def id_assignments(k):
+    """Every set partition of the k positions x every naming of the blocks (one naming when k = 1)."""
+    for part in partitions(k):
+        for naming, names in ID_NAMINGS.items():
+            if naming != "ascending" and k == 1:
+                continue
+            yield part, [names[b] for b in part]
+
+
 def partitions(k):
     """Set partitions of k positions as restricted-growth strings, all-distinct first."""
     out = []
@@ -690,8 +704,7 @@ def seg_rows_text(text):
 def run_seg(case, ctx):
     names = case["tables"]
     k = len(names)
-    for part in partitions(k):
-        ids = ["S%d" % (b + 1) for b in part]
+    for part, ids in id_assignments(k):
         files = [seg_file(i, ids[i], names[i]) for i in range(k)]
         samples = [(ids[i], seg_segments(names[i])) for i in range(k)]
         dup = len(set(ids)) < k
@@ -719,7 +732,7 @@ def run_seg(case, ctx):
                 except (TypeError, ValueError) as e:
                     problems = [("export seg writes numeric starts, ends and means", "malformed", "numbers", str(e)[:200])]
                 report(ctx, op, problems, sub)
-        ctx.state(("seg", names, part), nontrivial=dup or k > 1)
+        ctx.state(("seg", names, part, ids), nontrivial=dup or k > 1)
         if dup:
             ctx.stratum("seg:duplicate-sample-id")
         if "empty" in names:
@@ -808,8 +821,7 @@ def data_rows(rows):
 
 def run_bins(case, ctx):
     bt, k, dev = case["bins"], case["k"], case["dev"]
-    for part in partitions(k):
-        ids = ["S%d" % (b + 1) for b in part]
+    for part, ids in id_assignments(k):
         samples, files = [], []
         for i in range(k):
             rows = sample_bins(bt, i, dev[1] if dev and dev[0] == i else None)
@@ -847,7 +859,7 @@ def run_bins(case, ctx):
                     ctx.stratum("bins:open-deviation-merged")
                 problems = M.check_bin_table(header, data_rows(rows), label_col, samples, 1e-9)
                 report(ctx, f"{op}/{feat}", problems, sub)
-        ctx.state(("bins", bt, k, dev, part), nontrivial=dup or differ)
+        ctx.state(("bins", bt, k, dev, part, ids), nontrivial=dup or differ)
         if differ:
             ctx.stratum("bins:differing-" + ("first-file" if dev[0] == 0 else "later-file"))
     ctx.sample("bins", {"bins": bt, "k": k, "dev": dev})
